@@ -396,6 +396,7 @@ func (l *log) delete(offsets map[int64]struct{}) ([]Message, int64, error) {
 	if err != nil {
 		return nil, 0, err
 	}
+	verifhook.Pause("delete.reader-found")
 
 	wasWriter := false
 	var writerVersion message.Version
